@@ -63,7 +63,11 @@ Sound(c) ==
 \* J5 is negated geometrically: in robot coordinates that is -q5 + 2 * sign5 * offset5 (c.twin_shift5)
 Twin(c, q) == <<q[1], q[2], q[3], q[4] + HALF_AU, c.twin_shift5 - q[5], q[6] - HALF_AU>>
 Complete(c) ==
-  IF ~(c.entry = "inverse" /\ c.dof = 6 /\ c.truth.known /\ c.truth.nonsingular /\ ~c.pgram) THEN {}
+  IF ~(c.entry = "inverse" /\ c.dof = 6 /\ c.truth.known /\ c.truth.nonsingular) THEN {}
+  ELSE IF c.pgram THEN
+    \* through a coupling: the originating configuration is among the answers (the twin and the limits are the leaf's)
+    (IF ~c.lim /\ ~\E i \in 1..Len(c.answers) : SameMod(c.answers[i].q, c.truth.q)
+     THEN {"C02:originating-configuration-missing"} ELSE {})
   ELSE LET qs == Qs(c)
            inTol(q) == ~c.lim \/ (OnArcVec(c.from, c.to, q, N_AU) /\ EndDistVec(c.from, c.to, q, N_AU) >= BandLim)
        IN (IF inTol(c.truth.q) /\ ~\E i \in 1..Len(qs) : SameMod(qs[i], c.truth.q)
@@ -118,7 +122,9 @@ FiveDofOk(c) ==
   ELSE LET qs == Qs(c) IN
     (IF \E i \in 1..Len(c.j6_equal) : ~c.j6_equal[i] THEN {"C06:j6-not-the-callers"} ELSE {})
     \cup (IF "C01:answer-misses-pose" \in Sound(c) THEN {"C06:tool-point-or-axis-missed"} ELSE {})
-    \cup (IF c.truth.known /\ c.truth.nonsingular /\ c.reach = "yes" /\ ~c.lim /\
+    \* (with limits: when the originating vector - with the caller's J6 - is inside them, clear of the ends)
+    \cup (IF c.truth.known /\ c.truth.nonsingular /\ c.reach = "yes" /\ ~c.pgram /\
+             (~c.lim \/ (c.truth5_in_limits /\ ~AmbiguousVec(c.from, c.to, N_AU))) /\
              ~\E i \in 1..Len(qs) : SameMod5(qs[i], c.truth.q)
           THEN {"C06:originating-j1-j5-missing"} ELSE {})
     \cup (IF c.dof = 5 /\ c.truth.known /\ c.truth.nonsingular /\ c.reach = "yes" /\ ~c.lim /\ qs = <<>>
@@ -129,7 +135,8 @@ Decidable(c, q) == EndDistVec(c.from, c.to, q, N_AU) >= BandLim /\ ~AmbiguousVec
 Constrained(c) ==
   IF ~c.lim \/ c.huge THEN {}      \* (answers normalised near a previous of ~1e10 rad do not fit the AU integers)
   ELSE LET qs == Qs(c)
-           eq(u, v) == IF FiveDof(c) THEN SameMod5(u, v) ELSE SameMod(u, v)
+           \* (J6 included also for the 5-DOF variants: both calls carry the caller's J6)
+           eq(u, v) == SameMod(u, v)
        IN
     (IF \E i \in 1..Len(qs) : Decidable(c, qs[i]) /\ ~OnArcVec(c.from, c.to, qs[i], N_AU)
      THEN {"C08:answer-outside-limits"} ELSE {})
